@@ -37,3 +37,25 @@ Definition cover_count (o : oracle) (s : grid cell) (r c : nat) : nat :=
 
 Definition overlap_free (o : oracle) (h w : nat) (s : grid cell) : bool :=
   forallb (fun '(r, c) => cover_count o s r c <=? 1) (all_pos h w).
+
+(* ---------- sub-classes of Overlap ---------- *)
+Definition is_image_cell (o : oracle) (x : cell) : bool :=
+  match ckind (resolve o x) with KImg _ => true | _ => false end.
+
+(* number of images / of wide characters occupying (r, c) *)
+Definition cover_count_by (o : oracle) (img : bool) (s : grid cell) (r c : nat) : nat :=
+  list_sum (mapi (fun r0 row =>
+                    list_sum (mapi (fun c0 x => if Bool.eqb (is_image_cell o x) img && obj_covers o x r0 c0 r c
+                                                then 1 else 0) row)) s).
+
+(* (two images, an image and a wide character, two wide characters) on a common cell *)
+Definition overlap_kinds (o : oracle) (h w : nat) (s : grid cell) : bool * bool * bool :=
+  let at_pos := fun '(r, c) => (cover_count_by o true s r c, cover_count_by o false s r c) in
+  let l := map at_pos (all_pos h w) in
+  (existsb (fun '(ni, nw) => 2 <=? ni) l,
+   existsb (fun '(ni, nw) => (1 <=? ni) && (1 <=? nw)) l,
+   existsb (fun '(ni, nw) => 2 <=? nw) l).
+
+(* the domain of the theorems: images share cells with nothing (wide characters may hide one another) *)
+Definition no_image_overlap (o : oracle) (h w : nat) (s : grid cell) : bool :=
+  let '(ii, wi, _) := overlap_kinds o h w s in negb ii && negb wi.
